@@ -20,7 +20,8 @@ RULE = ("Operation trees as in C15 (parse, &, |, only, exclude, without_extras, 
         "small-scope strata). Every node value is rendered and re-parsed; every __str__ call of MultiMarker / "
         "MarkerUnion / the two group classes made anywhere is checked the same way (sampled 1 in 4 for nested "
         "calls). One evaluation = one environment decided. Non-trivial/distinct: result texts containing a "
-        "parenthesis or a grouped ==/!= atom.")
+        "parenthesis or a grouped ==/!= atom."
+        " Size strata: order twins behind self-combined ballast, compounds with 33-70 children, heavy term products.")
 ASSUMPTIONS = [
     "equivalence of the re-parsed marker is decided by evaluate() on sampled critical environments (final releases)",
     "the F5 / F12 strata are excluded here (their atoms are C02/C03's subject); reversed comparison atoms are included; "
